@@ -40,11 +40,12 @@ def run(prog):
     self_init = False
     bfn = [g for g in prog.lib_fns if g.name == "balanced" and g.impl_self == D]
     if len(bfn) == 1:
+        nodes = []
         for bb_, agg, line_ in bfn[0].terms.aggs:
             if agg[1] == "adt" and agg[3] == "Node" and len(agg) > 5 and "vars" in agg[5]:
                 vv = strip(agg[4][agg[5].index("vars")])
-                if mir.is_call(vv, "union") and sum(1 for x in mir.subterms(vv) if mir.is_call(x, "get_vars")) >= 2:
-                    self_init = True
+                nodes.append(mir.is_call(vv, "union") and sum(1 for x in mir.subterms(vv) if mir.is_call(x, "get_vars")) >= 2)
+        self_init = bool(nodes) and all(nodes)      # every node `balanced` makes, not just the two-tree shortcut
     k = 0
     for what, v, line in uses:
         if not any(mir.is_call(x, "balanced") for x in mir.subterms(v)):
